@@ -418,7 +418,7 @@ def run_crash(chk, tier):
     cfg = Cfg(b"js", b"ecmascript", b"/goroot", b"/gopath", [b"a"], b"v1")
     bc = cfg.tokens().split() + ["-"]
     p, t = hx(b"example.org/crash"), "1700000000000000000"
-    e0, e1 = "rnd:11:9000", "rnd:12:%d" % (100000 if tier == "thorough" else 12000)
+    e0, e1 = "rnd:11:9000", "rnd:12:%d" % (40000 if tier == "thorough" else 12000)
     env = C.env()
     outcomes = {}
 
@@ -589,6 +589,20 @@ def run_transparency(chk, tier):
         if int(damaged.get("hits", 0) or 0) != 0:
             chk.add_mismatch("transparency", "transparency program=%s truncated entries" % name, "hits=%s" % damaged.get("hits"),
                              "miss", signature="C20 truncated-entries-hit")
+    # AST round trip: a Sources holding every node kind of go/ast, stored and loaded by the real cache
+    xdg = C.scratch("gv-c20-r")
+    try:
+        p = C.run_gvh(["roundtrip"], extra_env={"XDG_CACHE_HOME": xdg}, name="gvh_c20", timeout=600)
+    finally:
+        shutil.rmtree(xdg, ignore_errors=True)
+    if p.returncode != 0:
+        raise RuntimeError("gvh_c20 roundtrip failed: " + p.stderr[-2000:])
+    rt = p.stdout.strip()
+    chk.add_case("transparency", "ast-roundtrip all node kinds", True, "transparency:ast-roundtrip")
+    res["ast_roundtrip"] = rt
+    if not rt.startswith("roundtrip identical "):
+        chk.add_mismatch("transparency", "ast-roundtrip: Store+Load of a Sources with every AST node kind (code, node kinds and positions, "
+                         "attached comments, imports, JS files)", rt, "roundtrip identical", signature="C20 ast-roundtrip " + rt.split()[1])
     # two different projects built from their own directories: both main packages have import path "."
     work = C.scratch("gv-c20-t")
     try:
